@@ -59,7 +59,10 @@ func alphaLon(lon float64, K int64) (int64, bool) {
 	if u < 0 || u > math.Ldexp(1, int(K)) {
 		return 0, false
 	}
-	if gammaLon(int64(u), K) != lon {
+	// the lattice longitudes are exactly representable and the library's formula is exact; an equally correct
+	// formula may differ in the last bits, so closeness far below any cell size (1e-12 deg = 1e-4 of the
+	// finest cell) is what is asked, not bit equality (shared faces are compared bit for bit separately)
+	if math.Abs(gammaLon(int64(u), K)-lon) > 1e-12 {
 		return 0, false
 	}
 	return int64(u), true
@@ -92,10 +95,10 @@ func alphaLat(lat float64, K int64) (int64, bool) {
 
 func alphaAlt(alt float64, KA int64) (int64, bool) {
 	a := math.Ldexp(alt, int(KA-25))
-	if a != math.Round(a) || math.Abs(a) > math.Ldexp(1, 40) {
+	if math.Abs(a-math.Round(a)) > 1e-6 || math.Abs(a) > math.Ldexp(1, 40) { // (1e-6 of a layer)
 		return 0, false
 	}
-	return int64(a), true
+	return int64(math.Round(a)), true
 }
 
 // projPoint abstracts a returned coordinate triple to a model lattice point of
